@@ -146,6 +146,11 @@ pub fn faulty_tree(kind: &str, pos: usize, mode: &Mode) -> Option<Tree> {
     Some(t)
 }
 
+thread_local! {
+    /// pool size of the runs started from this worker (8 = never saturated for 4 files; 1 and 2 = saturated)
+    static THREADS: std::cell::Cell<usize> = const { std::cell::Cell::new(8) };
+}
+
 struct Env {
     scratch: Scratch,
 }
@@ -160,12 +165,13 @@ impl Env {
         write_tree(&self.base(), t);
     }
     fn cfg(&self, mode: &Mode, inputs: &[&str]) -> Config {
+        let threads = THREADS.with(|t| t.get());
         Config {
             base_dir: self.base(),
             shell_cmd: String::new(),
             inputs: inputs.iter().map(|s| s.to_string()).collect(),
             recursive: false,
-            num_threads: 8,
+            num_threads: threads,
             mode: mode.clone(),
             verbosity: Verbosity::Quiet,
             trailing_newline: true,
@@ -212,10 +218,18 @@ fn limit_case(rep: &Report, env: &Env, limit_exec: &std::path::Path, maxsize: us
         c.arg("-N");
     }
     c.args(["-q", "-j", j]);
-    let st = c.status().expect("limit-exec");
+    let (st, timed_out) = status_with_timeout(&mut c, 40.0);
     rep.tv(1);
     rep.tr(1);
-    let code = st.code().unwrap_or(-1);
+    if timed_out {
+        rep.violate(
+            "hang-under-write-limit",
+            format!("write limit {n} bytes, -j{j}{}: txtpp did not end within 40 s", if needed { " --needed" } else { "" }),
+            json!({"engine": "X", "kind": "rlimit", "n": n, "j": j, "needed": needed}),
+        );
+        return -9;
+    }
+    let code = st.and_then(|s| s.code()).unwrap_or(-1);
     let expect_ok = n >= maxsize;
     let mut complete = true;
     for jx in 0..4 {
@@ -252,14 +266,20 @@ pub fn run_c04(tier: &str) -> i32 {
                     if mode == Mode::Clean && !(sel.contains(&".") || sel.iter().any(|s| s.starts_with(FILES[pos]))) {
                         continue;
                     }
-                    jobs.push((kind, pname, pos, mode.clone(), si));
+                    jobs.push((kind, pname, pos, mode.clone(), si, 8usize));
+                    if si == 0 && mode == Mode::Build {
+                        // saturated pools: results queue up behind the failing one
+                        jobs.push((kind, pname, pos, mode.clone(), si, 1));
+                        jobs.push((kind, pname, pos, mode.clone(), si, 2));
+                    }
                 }
             }
         }
     }
     // baseline without fault
     for mode in [Mode::Build, Mode::InMemoryBuild, Mode::Verify] {
-        jobs.push(("none", "-", 0, mode, 0));
+        jobs.push(("none", "-", 0, mode.clone(), 0, 8));
+        jobs.push(("none", "-", 0, mode, 0, 1));
     }
     sharded_dyn(&rep, par_threads(), |_k, _n, next, rep| {
         let env = Env { scratch: Scratch::new() };
@@ -272,7 +292,8 @@ pub fn run_c04(tier: &str) -> i32 {
                 rep.note_cap("wall-clock cap");
                 break;
             }
-            let (kind, pname, pos, mode, si) = &jobs[i];
+            let (kind, pname, pos, mode, si, threads) = &jobs[i];
+            THREADS.with(|t| t.set(*threads));
             let t = if *kind == "none" { Some(base_tree(*mode == Mode::Verify)) } else { faulty_tree(kind, *pos, mode) };
             let t = match t {
                 Some(t) => t,
@@ -282,7 +303,7 @@ pub fn run_c04(tier: &str) -> i32 {
             // (it then names a directory to scan): such inputs are given by source name
             let sel_src: Vec<String> = sels[*si].iter().map(|s| if *kind == "output-path-is-a-directory" && *s != "." { format!("{s}.txtpp") } else { s.to_string() }).collect();
             let sel_now: Vec<&str> = sel_src.iter().map(|s| s.as_str()).collect();
-            let desc = format!("fault={kind} in {} ({pname}) mode={:?} inputs={:?}", FILES[*pos], mode, sel_now);
+            let desc = format!("fault={kind} in {} ({pname}) mode={:?} inputs={:?} threads={threads}", FILES[*pos], mode, sel_now);
             let mut verdicts = BTreeSet::new();
             let res = explore_tree(&env, &t, mode, &sel_now, limit_for(kind), |r| {
                 verdicts.insert(r.verdict.kind());
@@ -291,14 +312,14 @@ pub fn run_c04(tier: &str) -> i32 {
                     rep.violate(
                         if *kind == "none" { "baseline-failed" } else if r.verdict.is_ok() { "false-success" } else { "abnormal-end" },
                         format!("{desc} :: schedule {:?} :: verdict {} (worker panics {:?}) trace {:?}", r.choices(), r.verdict.kind(), r.worker_panics, r.trace),
-                        json!({"engine": "X", "kind": kind, "pos": pos, "mode": format!("{:?}", mode), "inputs": sel_now, "schedule": r.choices()}),
+                        json!({"engine": "X", "kind": kind, "pos": pos, "mode": format!("{:?}", mode), "inputs": sel_now, "schedule": r.choices(), "threads": threads}),
                     );
                 }
                 if *kind == "none" && r.verdict.is_ok() && *mode != Mode::Verify {
                     for j in 0..4 {
                         let got = std::fs::read(env.base().join(format!("{}.txt", FILES[j]))).ok();
                         if got.as_deref() != Some(oracle(j).as_bytes()) {
-                            rep.violate("baseline-output", format!("{desc}: {}.txt is {:?}", FILES[j], got.map(|b| show(&b))), json!({"engine": "X", "kind": kind, "pos": pos, "mode": format!("{:?}", mode), "inputs": sel_now, "schedule": r.choices()}));
+                            rep.violate("baseline-output", format!("{desc}: {}.txt is {:?}", FILES[j], got.map(|b| show(&b))), json!({"engine": "X", "kind": kind, "pos": pos, "mode": format!("{:?}", mode), "inputs": sel_now, "schedule": r.choices(), "threads": threads}));
                         }
                     }
                 }
@@ -371,6 +392,7 @@ pub fn replay(v: &Value) -> bool {
     let inputs: Vec<&str> = inputs.iter().map(|s| s.as_str()).collect();
     let prefix: Vec<usize> = v["schedule"].as_array().map(|a| a.iter().map(|x| x.as_u64().unwrap() as usize).collect()).unwrap_or_default();
     let t = if kind == "none" { base_tree(mode == Mode::Verify) } else { faulty_tree(kind, pos, &mode).expect("fault applies") };
+    THREADS.with(|t| t.set(v["threads"].as_u64().unwrap_or(8) as usize));
     env.setup(&t);
     let r = with_fsize_limit(limit_for(kind), || run_controlled(env.cfg(&mode, &inputs), &CtlOpts { prefix, explore: Explore::Reduced, max_tasks: 64 }));
     println!("replay: fault={kind} pos={pos} mode={:?}: verdict {} trace {:?}", mode, r.verdict.kind(), r.trace);
